@@ -24,9 +24,9 @@ for d in sorted(glob.glob(os.path.join(V, "seeded", "C*"))):
         elif base.endswith(".go") and not re.match(r"(want|expect|exp_|golden|ref)", base):
             if body.lstrip().startswith(("package", "//", "/*")):
                 gos.append((base, body))
-    for pn, pb in patches:
-        for gn, gb in gos:
-            out.setdefault(pid, []).append({"id": f"seed/{name}/{pn}/{gn}", "patches": [pb], "src": gb})
+    for pi, (pn, pb) in enumerate(patches):
+        for gi, (gn, gb) in enumerate(gos):
+            out.setdefault(pid, []).append({"id": f"seed/{name}/{pi}.{pn}/{gi}.{gn}", "patches": [pb], "src": gb})
 # C09: a demonstration with several patch files (or one file with several changes) is a chain, in order of appearance
 import json as _j
 chains = []
@@ -58,7 +58,7 @@ for d in sorted(glob.glob(os.path.join(V, "seeded", "C*"))):
     combos = [changes] + [[a, b] for i, a in enumerate(changes) for b in changes[i + 1:]] if len(changes) >= 2 else []
     for gn, gb in gos:
         for ci, ch in enumerate(combos[:12]):
-            chains.append({"id": f"seed/{os.path.basename(d)}/{gn}/{ci}", "chain": ch, "src": gb, "how": ["flags", "one-file"][ci % 2]})
+            chains.append({"id": f"seed/{os.path.basename(d)}/{gos.index((gn, gb))}.{gn}/{ci}", "chain": ch, "src": gb, "how": ["flags", "one-file"][ci % 2]})
 if chains:
     json.dump(chains, open(os.path.join(V, "corpus", "C09", "seeded_chains.json"), "w"), indent=1)
     print("C09 chains", len(chains))
